@@ -57,6 +57,8 @@ type (
 		// raw response handed to the generated client instead of calling the server
 		RawResp *RawResponse `json:"rawResp,omitempty"`
 		Accept  string       `json:"accept,omitempty"`
+		// members removed from the request / response body on the wire (tamper.go)
+		Tamper *Tamper `json:"tamper,omitempty"`
 	}
 	Outcome struct {
 		Kind    string          `json:"kind"` // result | error
@@ -73,6 +75,7 @@ type (
 		URI     string              `json:"uri"`
 		Headers map[string][]string `json:"headers,omitempty"`
 		Body    string              `json:"body,omitempty"`
+		BodyB64 string              `json:"bodyB64,omitempty"` // body bytes that are not text (gob); wins over Body (serial.go)
 	}
 	RawResponse struct {
 		Status  int                 `json:"status"`
@@ -163,6 +166,13 @@ func Invoked(ctx context.Context, svc, method string, payload any, resType refle
 		err = buildError(s, o)
 		st.add(Event{"ev": "service_return", "kind": "error", "errKind": o.ErrKind, "errName": o.ErrName})
 		return nil, "", err
+	case "echo": // the payload itself is the result (serial.go)
+		r, ok := echoOutcome(payload, resType)
+		if !ok {
+			Fatal("scenario %s: method %s cannot echo %T as %v", st.scn.ID, method, payload, resType)
+		}
+		st.add(Event{"ev": "service_return", "kind": "echo"})
+		return r, o.View, nil
 	}
 	Fatal("unknown outcome kind %q", o.Kind)
 	return nil, "", nil
@@ -286,6 +296,11 @@ func (t *tap) serveWire(wire []byte, orig *http.Request) (*http.Response, error)
 		return nil, err
 	}
 	body, _ := io.ReadAll(req2.Body)
+	if tm := t.st.scn.Tamper; tm != nil && len(tm.Req) > 0 { // a peer that leaves members out (tamper.go)
+		body = dropMembers(t.st.scn.ID, "request", body, tm.Req)
+		req2.ContentLength = int64(len(body))
+		req2.Header.Set("Content-Length", fmt.Sprint(len(body)))
+	}
 	req2.Body = io.NopCloser(bytes.NewReader(body))
 	cookies := map[string][]string{}
 	for _, c := range req2.Cookies() {
@@ -321,6 +336,10 @@ func (t *tap) serveWire(wire []byte, orig *http.Request) (*http.Response, error)
 	}()
 	res := rec.Result()
 	rbody, _ := io.ReadAll(res.Body)
+	if tm := t.st.scn.Tamper; tm != nil && len(tm.Resp) > 0 && res.StatusCode < 300 { // (tamper.go)
+		rbody = dropMembers(t.st.scn.ID, "response", rbody, tm.Resp)
+		res.ContentLength = int64(len(rbody))
+	}
 	res.Body = io.NopCloser(bytes.NewReader(rbody))
 	rcookies := map[string][]string{}
 	for _, c := range res.Cookies() {
@@ -418,7 +437,8 @@ func (rt *Runtime) runOneSched(scn *Scenario, ps *procSched) map[string]any {
 					fmt.Fprintf(&buf, "%s: %s\r\n", k, v)
 				}
 			}
-			fmt.Fprintf(&buf, "Content-Length: %d\r\n\r\n%s", len(scn.Raw.Body), scn.Raw.Body)
+			rb := rawBody(scn.Raw)
+			fmt.Fprintf(&buf, "Content-Length: %d\r\n\r\n%s", len(rb), rb)
 			t.serveWire(buf.Bytes(), nil) // nolint: errcheck
 			return
 		}
